@@ -6,6 +6,6 @@ WT=/tmp/seedrun-$SEED-$PROP
 rm -rf $WT /tmp/seedrun-build-$SEED-$PROP; git -C /repo worktree prune
 git -C /repo worktree add -q --detach $WT HEAD || exit 2
 git -C $WT apply /verif/seeded/$SEED/patch.diff || { echo "patch failed"; git -C /repo worktree remove --force $WT; exit 2; }
-VERIF_REPO=$WT VERIF_BUILD=/tmp/seedrun-build-$SEED-$PROP VERIF_REPLAY=/tmp/seedrun-build-$SEED-$PROP/replay VERIF_EVIDENCE=/tmp/seedrun-build-$SEED-$PROP/evidence /verif/check $PROP "$@" 2>&1 | grep "VIOLATION\|MACHINERY\|KNOWN\|tier=" | cut -c1-260
+VERIF_REPO=$WT VERIF_BUILD=/tmp/seedrun-build-$SEED-$PROP VERIF_REPLAY=/tmp/seedrun-build-$SEED-$PROP/replay VERIF_EVIDENCE=/tmp/seedrun-build-$SEED-$PROP/evidence /verif/check $PROP "$@" 2>&1 | grep "VIOLATION\|MACHINERY\|KNOWN\|tier=\|BUILD\|INCONCL" | cut -c1-260
 echo "SEEDRUN $SEED vs $PROP exit=$?"
 git -C /repo worktree remove --force $WT; rm -rf /tmp/seedrun-build-$SEED-$PROP
